@@ -874,6 +874,15 @@ pub fn run(c: &mut Ctx) {
                     if *b != Some(*a) || *b2 != Some(*a) || *e != (*a == 0) || *e2 != *e || *lt != (*a < 0) || *le != (*a <= 0) || *gt != (*a > 0) || *ge != (*a >= 0) {
                         fl.hit(c, "Ord / PartialOrd / PartialEq of zone-aware values are not one order", || format!("{} {}", enc_z(&z), enc_z(&w)));
                     }
+                    // every operand, leap-second representations included: lexicographic on
+                    // (whole seconds since the epoch, nanosecond field) — theorem zoned_cmp_general
+                    let key = |d: &NaiveDateTime| ((dn(&d.date()) as i128 - EPOCH_DAY) * 86_400 + d.time().num_seconds_from_midnight() as i128, d.time().nanosecond());
+                    if *a != key(&utc).cmp(&key(&other)) as i32 {
+                        fl.hit(c, "the order of zone-aware values is not lexicographic on (seconds since the epoch, nanosecond field)", || format!("{} {}", enc_z(&z), enc_z(&w)));
+                    }
+                    if is_leap_dt(&utc) || is_leap_dt(&other) {
+                        c.count("zcmp:leap-second-operand");
+                    }
                     if !is_leap_dt(&utc) && !is_leap_dt(&other) {
                         let want = (inst(&utc) - inst(&other)).signum() as i32;
                         c.count(match want { 0 => "zcmp:equal-instants", 1 => "zcmp:later", _ => "zcmp:earlier" });
@@ -900,8 +909,10 @@ pub fn run(c: &mut Ctx) {
         let back = kind.ends_with('b');
         let cap = 1 + c.rng.below(24) as usize;
         // start so that the end of the range is reached within (or just beyond) the cap, or anywhere
-        let start = match c.rng.below(4) {
-            0 => g_date(c),
+        let start = match c.rng.below(40) {
+            0..=9 => g_date(c),
+            // the cursors halfway between MIN and MAX: the only ones whose hint is also right backward
+            10 => date_of_dn((dmin + dmax) / 2 + c.rng.range(-8, 8)),
             _ => {
                 let k = (c.rng.below(cap as u64 + 3) as i64 * step + c.rng.range(0, step - 1)) as u64;
                 if back != c.rng.chance(1, 12) {
